@@ -100,12 +100,15 @@ def _helper_calls(node, names, is_method):
 
 def _bind(helper, call, drop_self):
     a = helper.args
-    if a.vararg or a.kwarg or a.posonlyargs:
+    if a.kwarg or a.posonlyargs:
         return None
     pos = [x.arg for x in a.args][1 if drop_self else 0:]
     binds = {}
+    extra = None
     if len(call.args) > len(pos):
-        return None
+        if not a.vararg:
+            return None
+        extra = call.args[len(pos):]
     for p, v in zip(pos, call.args):
         binds[p] = v
     names = pos + [x.arg for x in a.kwonlyargs]
@@ -121,10 +124,13 @@ def _bind(helper, call, drop_self):
             if p not in defaults:
                 return None
             binds[p] = defaults[p]
-    return [(p, binds[p]) for p in names]
+    out = [(p, binds[p]) for p in names]
+    if a.vararg:
+        out.append((a.vararg.arg, ast.Tuple(elts=list(extra or []), ctx=ast.Load())))
+    return out
 
 
-def _expand(helper, call, caller_names, drop_self, want_value):
+def _expand(helper, call, caller_names, drop_self, want_value, mode=None):
     """-> (statements, result expression or None) or None when the helper cannot be inlined here."""
     binds = _bind(helper, call, drop_self)
     if binds is None:
@@ -155,6 +161,30 @@ def _expand(helper, call, caller_names, drop_self, want_value):
     _counter[0] += 1
     retname = '__inl_ret_%d' % _counter[0]
     result = None
+    if mode == 'tail':
+        # `return h(..)`: the helper's own returns are the caller's returns
+        stmts = pre + new
+        if not _terminates(new):
+            stmts.append(ast.copy_location(ast.Return(value=ast.Constant(value=None)), call))
+        for s in stmts:
+            ast.fix_missing_locations(s)
+        return stmts, None
+    if mode == 'propagate':
+        # `v = h(..)` followed by `if v is not None: return v`: returns of provably non-None values stay returns, a final
+        # `return None` falls through
+        last = new[-1] if isinstance(new[-1], ast.Return) else None
+        if last is not None and (last.value is None or (isinstance(last.value, ast.Constant) and last.value.value is None)):
+            new = new[:-1]
+            last = None
+        for r_ in [x for s_ in new for x in _returns_in(s_)]:
+            if not _non_none(r_.value):
+                return None
+        if not new:
+            return None
+        stmts = pre + new
+        for s in stmts:
+            ast.fix_missing_locations(s)
+        return stmts, None
     if not early:
         if final is not None:
             last = new[-1]
@@ -164,6 +194,12 @@ def _expand(helper, call, caller_names, drop_self, want_value):
             elif last.value is not None and any(isinstance(x, ast.Call) for x in ast.walk(last.value)):
                 new.append(ast.copy_location(ast.Expr(value=last.value), last))
         stmts = pre + new
+    elif (structured := _structured(copy.deepcopy(new), retname, want_value)) is not None:
+        stmts = pre + structured
+        if want_value:
+            result = ast.Name(id=retname, ctx=ast.Load())
+            if structured and isinstance(structured[-1], ast.If):
+                structured[-1]._retvar = retname
     else:
         class _R(ast.NodeTransformer):
             def visit_Return(self, node):
@@ -213,6 +249,143 @@ def _expand(helper, call, caller_names, drop_self, want_value):
 
 class _GiveUp(Exception):
     pass
+
+
+def _returns_in(node):
+    out = []
+    stack = [node]
+    while stack:
+        n = stack.pop()
+        if isinstance(n, (ast.FunctionDef, ast.AsyncFunctionDef, ast.Lambda, ast.ClassDef)):
+            continue
+        if isinstance(n, ast.Return):
+            out.append(n)
+        stack.extend(ast.iter_child_nodes(n))
+    return out
+
+
+def _non_none(e):
+    """Provably not None: a constructor call (capitalised callee), a non-None literal, a list / tuple / dict / set display."""
+    if e is None:
+        return False
+    if isinstance(e, ast.Constant):
+        return e.value is not None
+    if isinstance(e, (ast.List, ast.Tuple, ast.Dict, ast.Set, ast.ListComp, ast.SetComp, ast.DictComp, ast.JoinedStr)):
+        return True
+    if isinstance(e, ast.Call) and isinstance(e.func, ast.Name) and e.func.id[:1].isupper():
+        return True
+    return False
+
+
+def _has_return(node):
+    if isinstance(node, (ast.FunctionDef, ast.AsyncFunctionDef, ast.ClassDef)):
+        return False
+    stack = [node]
+    while stack:
+        n = stack.pop()
+        if isinstance(n, (ast.FunctionDef, ast.AsyncFunctionDef, ast.Lambda, ast.ClassDef)) and n is not node:
+            continue
+        if isinstance(n, ast.Return):
+            return True
+        stack.extend(ast.iter_child_nodes(n))
+    return False
+
+
+def _terminates(block):
+    if not block:
+        return False
+    last = block[-1]
+    if isinstance(last, (ast.Return, ast.Raise)):
+        return True
+    if isinstance(last, ast.If):
+        return _terminates(last.body) and _terminates(last.orelse)
+    return False
+
+
+def _structured(block, retname, want_value):
+    """Guard clauses turned into if / else: `if c: return X` + rest becomes `if c: ret = X  else: rest'`. None when a return sits
+    inside a loop / try / with, or when both branches of a conditional may fall through after a nested return."""
+    out = []
+    for i, s in enumerate(block):
+        if isinstance(s, ast.Return):
+            if want_value:
+                if s.value is None:
+                    return None
+                out.append(ast.copy_location(ast.Assign(targets=[ast.Name(id=retname, ctx=ast.Store())], value=s.value, lineno=s.lineno), s))
+            elif s.value is not None and any(isinstance(x, ast.Call) for x in ast.walk(s.value)):
+                out.append(ast.copy_location(ast.Expr(value=s.value), s))
+            return out
+        if not _has_return(s):
+            out.append(s)
+            continue
+        if isinstance(s, (ast.For, ast.While)) and not s.orelse and want_value:
+            # `for ..: if c: return X` + rest  ->  `for ..: if c: ret = X; break` + `else: rest'` (the loop has no break of its own)
+            inner = [x for st_ in s.body for x in ast.walk(st_)]
+            if any(isinstance(x, (ast.Break, ast.For, ast.While, ast.Try, ast.With, ast.FunctionDef, ast.Lambda)) for x in inner):
+                return None
+            if any(r_.value is None for st_ in s.body for r_ in _returns_in(st_)):
+                return None
+
+            class _RB(ast.NodeTransformer):
+                def visit_Return(self, node):
+                    return [ast.copy_location(ast.Assign(targets=[ast.Name(id=retname, ctx=ast.Store())], value=node.value, lineno=node.lineno), node),
+                            ast.copy_location(ast.Break(), node)]
+            rest = _structured(block[i + 1:], retname, want_value)
+            if rest is None or not _terminates(block[i + 1:]):
+                return None
+            s2 = copy.copy(s)
+            s2.body = []
+            for st_ in s.body:
+                r_ = _RB().visit(st_)
+                s2.body.extend(r_ if isinstance(r_, list) else [r_])
+            s2.orelse = rest
+            out.append(s2)
+            return out
+        if isinstance(s, ast.Try) and i == len(block) - 1 and not s.finalbody:
+            # a try statement in tail position: each of its blocks is in tail position too
+            s2 = copy.copy(s)
+            parts = [_structured(s.body, retname, want_value) if not s.orelse else (None if _has_return(ast.Module(body=s.body, type_ignores=[])) else s.body)]
+            if parts[0] is None:
+                return None
+            s2.body = parts[0] or [ast.copy_location(ast.Pass(), s)]
+            if s.orelse:
+                o_ = _structured(s.orelse, retname, want_value)
+                if o_ is None:
+                    return None
+                s2.orelse = o_
+            hs = []
+            for h in s.handlers:
+                hb = _structured(h.body, retname, want_value)
+                if hb is None:
+                    return None
+                h2 = copy.copy(h)
+                h2.body = hb or [ast.copy_location(ast.Pass(), h)]
+                hs.append(h2)
+            s2.handlers = hs
+            out.append(s2)
+            return out
+        if not isinstance(s, ast.If):
+            return None
+        b = _structured(s.body, retname, want_value)
+        o = _structured(s.orelse, retname, want_value)
+        if b is None or o is None:
+            return None
+        bt, ot = _terminates(s.body), _terminates(s.orelse)
+        rest = block[i + 1:]
+        if not (bt and ot):
+            if not bt and not ot:
+                return None
+            rr = _structured(rest, retname, want_value)
+            if rr is None:
+                return None
+            if bt:
+                o = o + rr
+            else:
+                b = b + rr
+        new = ast.copy_location(ast.If(test=s.test, body=b or [ast.copy_location(ast.Pass(), s)], orelse=o), s)
+        out.append(new)
+        return out
+    return out
 
 
 def _replace(stmt, call, result):
@@ -285,6 +458,99 @@ def _inline_expression_helpers(fn, helpers, names_ok, is_method):
                 break
 
 
+def _leaves(ifnode, r):
+    """The blocks of an if / else nest that end by assigning r; None when some path ends otherwise (raise excepted)."""
+    res = []
+    for blk in (ifnode.body, ifnode.orelse):
+        if not blk:
+            return None
+        last = blk[-1]
+        if isinstance(last, ast.Assign) and len(last.targets) == 1 and isinstance(last.targets[0], ast.Name) and last.targets[0].id == r:
+            res.append(blk)
+        elif isinstance(last, ast.If):
+            sub = _leaves(last, r)
+            if sub is None:
+                return None
+            res += sub
+        elif isinstance(last, ast.Raise):
+            continue
+        else:
+            return None
+    return res
+
+
+def _decide(test, tv, v, scope):
+    """Static truth value of `test` (which reads only tv) when tv holds the value of expression v; None when unknown."""
+    from .cfg import atoms
+    at = atoms(test, True)
+    if len(at) != 1:
+        return None
+    op, l, r_ = at[0]
+    if l != tv:
+        return None
+    is_none = isinstance(v, ast.Constant) and v.value is None
+    non_none = _non_none(v)
+    if isinstance(v, ast.Name):
+        defs = [n.value for n in ast.walk(scope) if isinstance(n, ast.Assign) and any(isinstance(t, ast.Name) and t.id == v.id for t in n.targets)]
+        others = [n for n in ast.walk(scope) if isinstance(n, (ast.For, ast.AugAssign, ast.With, ast.NamedExpr))
+                  and any(isinstance(x, ast.Name) and x.id == v.id and isinstance(x.ctx, ast.Store) for x in ast.walk(n.target if isinstance(n, (ast.For, ast.AugAssign, ast.NamedExpr)) else n))]
+        non_none = bool(defs) and not others and all(_non_none(d) for d in defs)
+    if op in ('is', 'is not') and r_ == 'None':
+        if is_none:
+            return op == 'is'
+        if non_none:
+            return op == 'is not'
+        return None
+    if op in ('truthy', 'falsy') and r_ == '':
+        if isinstance(v, ast.Constant):
+            return bool(v.value) == (op == 'truthy')
+        if isinstance(v, (ast.List, ast.Dict, ast.Tuple, ast.Set)):
+            n_el = len(v.keys) if isinstance(v, ast.Dict) else len(v.elts)
+            return (n_el > 0) == (op == 'truthy')
+    return None
+
+
+def _thread(block):
+    """After a structured inlining `if ..: ret = A  else: ret = B` followed by `[x = ret]  if T(x): S`, the continuation is moved
+    into every branch and decided there when the branch's value settles T (a form of jump threading; always behaviour preserving
+    because the moved statements follow the conditional on every path)."""
+    i = 0
+    while i < len(block):
+        st = block[i]
+        r = getattr(st, '_retvar', None)
+        if not (isinstance(st, ast.If) and r):
+            i += 1
+            continue
+        leaves = _leaves(st, r)
+        j = i + 1
+        tv = r
+        moved = []
+        if j < len(block) and isinstance(block[j], ast.Assign) and len(block[j].targets) == 1 and isinstance(block[j].targets[0], ast.Name) \
+                and isinstance(block[j].value, ast.Name) and block[j].value.id == r:
+            tv = block[j].targets[0].id
+            moved.append(block[j])
+            j += 1
+        ok = leaves and j < len(block) and isinstance(block[j], ast.If) and \
+            {x.id for x in ast.walk(block[j].test) if isinstance(x, ast.Name)} - {'len', 'bool'} == {tv}
+        if not ok:
+            i += 1
+            continue
+        cont = block[j]
+        for leaf in leaves:
+            v = leaf[-1].value
+            d = _decide(cont.test, tv, v, st)
+            pre = [copy.deepcopy(m) for m in moved]
+            if d is True:
+                leaf.extend(pre + [copy.deepcopy(x) for x in cont.body])
+            elif d is False:
+                leaf.extend(pre + [copy.deepcopy(x) for x in cont.orelse])
+            else:
+                leaf.extend(pre + [copy.deepcopy(cont)])
+        del block[i + 1:j + 1]
+        st._retvar = None
+        i += 1
+
+
 def _rewrite_function(fn, helpers, names_ok, is_method, failed):
     caller_names = _locals(fn) | set(_params(fn))
 
@@ -300,12 +566,54 @@ def _rewrite_function(fn, helpers, names_ok, is_method, failed):
             return None
         return None
 
+    def propagate_pattern(st, nxt):
+        """`v = h(..)` directly followed by `if v is not None: return v` (v not used elsewhere) -> the helper call"""
+        if not (isinstance(st, ast.Assign) and len(st.targets) == 1 and isinstance(st.targets[0], ast.Name) and isinstance(st.value, ast.Call)):
+            return None
+        v = st.targets[0].id
+        if not (isinstance(nxt, ast.If) and not nxt.orelse and len(nxt.body) == 1 and isinstance(nxt.body[0], ast.Return)
+                and isinstance(nxt.body[0].value, ast.Name) and nxt.body[0].value.id == v):
+            return None
+        t = nxt.test
+        if not (isinstance(t, ast.Compare) and isinstance(t.left, ast.Name) and t.left.id == v and len(t.ops) == 1 and isinstance(t.ops[0], ast.IsNot)
+                and isinstance(t.comparators[0], ast.Constant) and t.comparators[0].value is None):
+            return None
+        if sum(1 for x in ast.walk(fn) if isinstance(x, ast.Name) and x.id == v) != 3:
+            return None
+        cs = _helper_calls(st, names_ok, is_method)
+        if len(cs) == 1 and cs[0][1] is st.value and cs[0][2] and cs[0][0] not in failed:
+            return cs[0]
+        return None
+
     def rewrite(block):
         out = []
-        for st in block:
+        skip = False
+        for idx, st in enumerate(block):
+            if skip:
+                skip = False
+                continue
             if isinstance(st, (ast.FunctionDef, ast.AsyncFunctionDef, ast.ClassDef)):
                 out.append(st)
                 continue
+            pp = propagate_pattern(st, block[idx + 1]) if idx + 1 < len(block) else None
+            if pp is not None:
+                helper = helpers[pp[0]]
+                drop_self = is_method and not any(isinstance(d, ast.Name) and d.id == 'staticmethod' for d in helper.decorator_list)
+                exp = _expand(helper, pp[1], caller_names, drop_self, want_value=False, mode='propagate')
+                if exp is not None:
+                    out.extend(exp[0])
+                    skip = True
+                    continue
+            if isinstance(st, ast.Return) and isinstance(st.value, ast.Call):
+                cs = _helper_calls(st, names_ok, is_method)
+                if len(cs) == 1 and cs[0][1] is st.value and cs[0][2] and cs[0][0] not in failed:
+                    helper = helpers[cs[0][0]]
+                    drop_self = is_method and not any(isinstance(d, ast.Name) and d.id == 'staticmethod' for d in helper.decorator_list)
+                    if len(_returns(helper)) > 1 or any(isinstance(x, ast.Return) for s_ in helper.body if isinstance(s_, (ast.For, ast.While, ast.Try, ast.With)) for x in ast.walk(s_)):
+                        exp = _expand(helper, cs[0][1], caller_names, drop_self, want_value=False, mode='tail')
+                        if exp is not None:
+                            out.extend(exp[0])
+                            continue
             compound = isinstance(st, (ast.If, ast.For, ast.While, ast.With, ast.Try))
             scope = st if not compound else None
             calls = []
@@ -363,6 +671,57 @@ def _rewrite_function(fn, helpers, names_ok, is_method, failed):
                     for h in st.handlers:
                         h.body = rewrite(h.body)
             out.append(st)
+        _thread(out)
+        return out
+    fn.body = rewrite(fn.body)
+
+
+def _desugar_comprehensions(fn, names, is_method):
+    """`x = [f(v) for v in it if c]` / `return [..]` whose element calls a new helper becomes an explicit accumulation loop, so that
+    the helper call sits in a statement position and can be inlined (list comprehensions with one generator only)."""
+    def rewrite(block):
+        out = []
+        for st in block:
+            if isinstance(st, (ast.FunctionDef, ast.AsyncFunctionDef, ast.ClassDef)):
+                out.append(st)
+                continue
+            for fld in ('body', 'orelse', 'finalbody'):
+                blk = getattr(st, fld, None)
+                if isinstance(blk, list) and blk and isinstance(blk[0], ast.stmt):
+                    setattr(st, fld, rewrite(blk))
+            if isinstance(st, ast.Try):
+                for h in st.handlers:
+                    h.body = rewrite(h.body)
+            comp = None
+            if isinstance(st, ast.Return) and isinstance(st.value, ast.ListComp):
+                comp = st.value
+            elif isinstance(st, ast.Assign) and len(st.targets) == 1 and isinstance(st.value, ast.ListComp):
+                comp = st.value
+            if comp is None or len(comp.generators) != 1 or comp.generators[0].is_async or \
+                    not [c for c in _helper_calls(ast.Expr(value=comp.elt), names, is_method) if c[2]]:
+                out.append(st)
+                continue
+            g = comp.generators[0]
+            _counter[0] += 1
+            if isinstance(st, ast.Assign) and isinstance(st.targets[0], ast.Name) and not any(isinstance(x, ast.Name) and x.id == st.targets[0].id for x in ast.walk(comp)):
+                acc = st.targets[0].id
+            else:
+                acc = '__comp_%d' % _counter[0]
+            init = ast.Assign(targets=[ast.Name(id=acc, ctx=ast.Store())], value=ast.List(elts=[], ctx=ast.Load()), lineno=st.lineno)
+            app = ast.Expr(value=ast.Call(func=ast.Attribute(value=ast.Name(id=acc, ctx=ast.Load()), attr='append', ctx=ast.Load()), args=[comp.elt], keywords=[]))
+            body = [app]
+            for c in reversed(g.ifs):
+                body = [ast.If(test=c, body=body, orelse=[])]
+            loop = ast.For(target=g.target, iter=g.iter, body=body, orelse=[], lineno=st.lineno)
+            new = [init, loop]
+            if isinstance(st, ast.Return):
+                new.append(ast.Return(value=ast.Name(id=acc, ctx=ast.Load())))
+            elif not (isinstance(st.targets[0], ast.Name) and acc == st.targets[0].id):
+                new.append(ast.Assign(targets=st.targets, value=ast.Name(id=acc, ctx=ast.Load()), lineno=st.lineno))
+            for n in new:
+                ast.copy_location(n, st)
+                ast.fix_missing_locations(n)
+            out.extend(new)
         return out
     fn.body = rewrite(fn.body)
 
@@ -380,10 +739,10 @@ def _qualifies(tree, scope_funcs, helpers, is_method):
             refs[n.value] += 100
     calls = {n: 0 for n in names}
     for f in scope_funcs:
-        if f.name in names:
-            continue
         for st in f.body:
             for name, call, ok in _helper_calls(st, names, is_method):
+                if name == f.name:
+                    continue      # recursion: excluded below
                 calls[name] += 1 if (ok or _expression_helper(helpers[name]) is not None) else 1000
     out = set()
     for n in names:
@@ -395,11 +754,42 @@ def _qualifies(tree, scope_funcs, helpers, is_method):
     return out
 
 
+def _inline_local_expression_functions(fn, done):
+    """A nested `def g(a, b): return <expr>` (or `g = lambda a, b: <expr>`) that is only ever called inside fn is substituted at
+    its call sites (late binding of its free variables = evaluation at the call site) and dropped."""
+    cands = {}
+    for blk_owner in ast.walk(fn):
+        for fld in ('body', 'orelse', 'finalbody'):
+            blk = getattr(blk_owner, fld, None)
+            if not isinstance(blk, list):
+                continue
+            for st in blk:
+                if isinstance(st, ast.FunctionDef) and st is not fn and not st.decorator_list and _expression_helper(st) is not None:
+                    cands[st.name] = (st, blk)
+    for name, (g, blk) in list(cands.items()):
+        refs = [n for n in ast.walk(fn) if isinstance(n, ast.Name) and n.id == name]
+        callfuncs = {id(c.func) for c in ast.walk(fn) if isinstance(c, ast.Call) and isinstance(c.func, ast.Name) and c.func.id == name}
+        binders = [n for n in ast.walk(fn) if isinstance(n, ast.FunctionDef) and n.name == name]
+        inside = {id(n) for n in ast.walk(g)}
+        if not refs or len(binders) != 1 or any(id(r_) not in callfuncs for r_ in refs) or any(id(r_) in inside for r_ in refs):
+            continue
+        if any(isinstance(a, ast.Starred) for c in ast.walk(fn) if isinstance(c, ast.Call) and id(c.func) in callfuncs for a in c.args):
+            continue
+        _inline_expression_helpers(fn, {name: g}, {name}, False)
+        if not any(isinstance(n, ast.Name) and n.id == name for n in ast.walk(fn)):
+            blk.remove(g)
+            if not blk:
+                blk.append(ast.copy_location(ast.Pass(), g))
+            done.append('%s.<locals>.%s' % (fn.name, name))
+
+
 def inline_new_helpers(tree, modname, known):
     """Rewrite tree in place. Returns the list of helpers that were inlined (for the evidence)."""
     done = []
     if known is None:
         return done
+    for fn in [n for n in ast.walk(tree) if isinstance(n, ast.FunctionDef)]:
+        _inline_local_expression_functions(fn, done)
     for _pass in range(2):
         # methods
         for cls in [n for n in tree.body if isinstance(n, ast.ClassDef)]:
@@ -409,6 +799,8 @@ def inline_new_helpers(tree, modname, known):
                    and all(isinstance(d, ast.Name) and d.id == 'staticmethod' for d in m.decorator_list)}
             if not new:
                 continue
+            for m in methods.values():
+                _desugar_comprehensions(m, set(new), True)
             ok = _qualifies(tree, list(methods.values()), new, True)
             if not ok:
                 continue
@@ -427,6 +819,8 @@ def inline_new_helpers(tree, modname, known):
         new = {name: f for name, f in funcs.items() if name.startswith('_') and not name.startswith('__') and ('%s:%s' % (modname, name)) not in known and not f.decorator_list}
         if new:
             allf = [n for n in ast.walk(tree) if isinstance(n, ast.FunctionDef)]
+            for f in allf:
+                _desugar_comprehensions(f, set(new), False)
             ok = _qualifies(tree, allf, new, False)
             if ok:
                 failed = set()
